@@ -465,6 +465,98 @@ where
     out
 }
 
+
+/// a proof object built from its parts through serde (bypasses `from_bytes` and its checks)
+pub struct RawProof {
+    pub abar: G1Projective,
+    pub bbar: G1Projective,
+    pub d: G1Projective,
+    pub e_cap: Scalar,
+    pub r1_cap: Scalar,
+    pub r3_cap: Scalar,
+    pub m_cap: Vec<Scalar>,
+    pub c: Scalar,
+}
+impl RawProof {
+    pub fn from_proof_bytes(b: &[u8]) -> RawProof {
+        let g = |o: usize| G1Projective::from(G1Affine::from_compressed(&b[o..o + 48].try_into().unwrap()).unwrap());
+        let sc = |o: usize| Scalar::from_be_bytes(&b[o..o + 32].try_into().unwrap()).unwrap();
+        let n = (b.len() - 240) / 32;
+        RawProof {
+            abar: g(0),
+            bbar: g(48),
+            d: g(96),
+            e_cap: sc(144),
+            r1_cap: sc(176),
+            r3_cap: sc(208),
+            m_cap: (0..n - 1).map(|k| sc(240 + 32 * k)).collect(),
+            c: sc(240 + 32 * (n - 1)),
+        }
+    }
+    pub fn build<CS: BbsCiphersuite>(&self) -> Option<Pok<CS>> {
+        let v = serde_json::json!({
+            "Abar": serde_json::to_value(&self.abar).ok()?, "Bbar": serde_json::to_value(&self.bbar).ok()?,
+            "D": serde_json::to_value(&self.d).ok()?, "e_cap": serde_json::to_value(&self.e_cap).ok()?,
+            "r1_cap": serde_json::to_value(&self.r1_cap).ok()?, "r3_cap": serde_json::to_value(&self.r3_cap).ok()?,
+            "m_cap": serde_json::to_value(&self.m_cap).ok()?, "challenge": serde_json::to_value(&self.c).ok()?,
+        });
+        let inner: BBSplusPoKSignature = serde_json::from_value(v).ok()?;
+        Some(PoKSignature::BBSplus(inner))
+    }
+    fn args(&self) -> Vec<String> {
+        let sc = |s: &Scalar| hex::encode(s.to_be_bytes());
+        let mut m = format!("L{}", self.m_cap.len());
+        for x in &self.m_cap {
+            m.push(':');
+            m.push_str(&sc(x));
+        }
+        vec![hex::encode(g1hex(&self.abar)), hex::encode(g1hex(&self.bbar)), hex::encode(g1hex(&self.d)), sc(&self.e_cap), sc(&self.r1_cap), sc(&self.r3_cap), m, sc(&self.c)]
+    }
+}
+
+/// proof_verify / blind_proof_verify on a proof object that never went through `from_bytes`
+pub fn proofverify_raw<CS: BbsCiphersuite>(
+    h: &mut H,
+    pk: &BBSplusPublicKey,
+    raw: &RawProof,
+    hdr: Option<&[u8]>,
+    ph: Option<&[u8]>,
+    blind_l: Option<Option<usize>>,
+    dmsgs: Option<&[Vec<u8>]>,
+    dcmsgs: Option<&[Vec<u8>]>,
+    idx: Option<&[usize]>,
+    cidx: Option<&[usize]>,
+) -> Option<Out<()>>
+where
+    CS::Expander: for<'a> ExpandMsg<'a>,
+{
+    let proof = raw.build::<CS>()?;
+    let out = match blind_l {
+        None => guard(|| proof.proof_verify(pk, dmsgs, idx, hdr, ph)),
+        Some(l) => guard(|| proof.blind_proof_verify(pk, hdr, ph, l, dmsgs, dcmsgs, idx, cidx)),
+    };
+    let mut a = vec![hx(&pk.to_bytes())];
+    a.extend(raw.args());
+    a.push(ohx(hdr));
+    a.push(ohx(ph));
+    match blind_l {
+        None => {
+            a.push(olhx(dmsgs));
+            a.push(olix(idx));
+            log(h, "proofverifyraw", &a, &out, |_| vec![]);
+        }
+        Some(l) => {
+            a.push(l.map(|x| x.to_string()).unwrap_or("-".to_string()));
+            a.push(olhx(dmsgs));
+            a.push(olhx(dcmsgs));
+            a.push(olix(idx));
+            a.push(olix(cidx));
+            log(h, "blindproofverifyraw", &a, &out, |_| vec![]);
+        }
+    }
+    Some(out)
+}
+
 // ---------------------------------------------------------------------------------------------
 // replay: re-execute protocol lines (the part before "=>") against the current implementation
 
@@ -538,6 +630,21 @@ where
         }
         "commit" => {
             commit::<CS>(h, unolhx(a[0]).as_deref(), untape(a[1]));
+        }
+        "proofverifyraw" | "blindproofverifyraw" => {
+            let g = |s: &str| G1Projective::from(G1Affine::from_compressed(&arr::<48>(&unhx(s))).unwrap());
+            let sc = |s: &str| Scalar::from_be_bytes(&arr::<32>(&unhx(s))).unwrap();
+            let raw = RawProof {
+                abar: g(a[1]), bbar: g(a[2]), d: g(a[3]), e_cap: sc(a[4]), r1_cap: sc(a[5]), r3_cap: sc(a[6]),
+                m_cap: unlhx(a[7]).iter().map(|b| Scalar::from_be_bytes(&arr::<32>(b)).unwrap()).collect(),
+                c: sc(a[8]),
+            };
+            if op == "proofverifyraw" {
+                proofverify_raw::<CS>(h, &pk(a[0]), &raw, unohx(a[9]).as_deref(), unohx(a[10]).as_deref(), None, unolhx(a[11]).as_deref(), None, unolix(a[12]).as_deref(), None);
+            } else {
+                let l = if a[11] == "-" { None } else { Some(a[11].parse().unwrap()) };
+                proofverify_raw::<CS>(h, &pk(a[0]), &raw, unohx(a[9]).as_deref(), unohx(a[10]).as_deref(), Some(l), unolhx(a[12]).as_deref(), unolhx(a[13]).as_deref(), unolix(a[14]).as_deref(), unolix(a[15]).as_deref());
+            }
         }
         "blindsign" => {
             blindsign::<CS>(
